@@ -107,6 +107,16 @@ def build_filters(ctx, features_drop=()):
                 filters += [ast.Compare(ast.Eq(), call("concat", S(l), I("s1")), S("abc")), ast.Compare(ast.Eq(), call("concat", I("s1"), call("tolower", S(l))), S("abc"))]
             if "substring" not in features_drop:
                 filters += [ast.Compare(ast.Eq(), I("s1"), call("substring", S(l), ast.Integer("1")))]
+    if "substring" not in features_drop:
+        for start in ("0", "1", "2", "3"):
+            filters += [ast.Compare(ast.Eq(), call("substring", I("s1"), ast.Integer(start)), S("bc")), ast.Compare(ast.Eq(), call("substring", I("s1"), ast.Integer(start)), S("c")),
+                        ast.Compare(ast.NotEq(), call("substring", I("s2"), ast.Integer(start)), S(""))]
+            for ln in ("0", "1", "2"):
+                filters += [ast.Compare(ast.Eq(), call("substring", I("s1"), ast.Integer(start), ast.Integer(ln)), S("b")),
+                            ast.Compare(ast.Eq(), call("substring", I("s1"), ast.Integer(start), ast.Integer(ln)), S("ab"))]
+    for k in ("0", "1", "2", "3", "7"):
+        filters += [ast.Compare(ast.Eq(), call("length", I("s1")), ast.Integer(k)), ast.Compare(ast.Eq(), ast.BinOp(ast.Add(), call("length", I("s1")), ast.Integer(k)), ast.Integer("3")),
+                    ast.Compare(ast.Gt(), ast.BinOp(ast.Mult(), I("i1"), ast.Integer(k)), ast.Integer("2"))]
     uniq = sc.dedup(filters)
     nodes = [n for w, n in uniq]
     texts = texts_of(nodes)
